@@ -1330,7 +1330,11 @@ class TangentVector(PointPair):
         v2 = project_to_hyperboloid(self.point, other.normalized().vector)
 
         product = utils.apply_bilinear(v1, v2, self.minkowski)
-        return np.arccos(product)
+
+        # the product of two unit vectors can round to slightly more
+        # than 1 (or less than -1) when the vectors are parallel, and
+        # arccos would then give nan
+        return np.arccos(np.minimum(np.maximum(product, -1), 1))
 
     def point_along(self, distance):
         """Get a point in hyperbolic space along the geodesic specified by
